@@ -1,0 +1,176 @@
+//go:build verif
+
+package qpeerset
+
+// Contracts for the lookup peer set (properties C01, C02, C03). Comment-only
+// file: read by /verif/govc, no executable content.
+
+/*@
+# ---- abstract view -------------------------------------------------------
+# $idx / $has: ghost inverse index (peer -> position in all). It makes
+# membership, distinctness and "state of peer p" quantifier-free.
+# $src / $rank: ghost witnesses left by the last GetClosestNInStates call:
+# $src[j] = position in all of the j-th returned peer, $rank[m] = position in
+# the result of all[m].
+ghost field (QueryPeerset) $idx map[peer.ID]int
+ghost field (QueryPeerset) $has map[peer.ID]bool
+ghost field (QueryPeerset) $src map[int]int
+ghost field (QueryPeerset) $rank map[int]int
+
+pred xordist(p peer.ID, k ks.Key) = ksdist(ks.XORKeySpace.Key(bytes(p)), k)
+
+pred wfIdx(qp *QueryPeerset) = all(i, 0, len(qp.all), qp.$has[qp.all[i].id] && qp.$idx[qp.all[i].id] == i)
+pred wfHas(qp *QueryPeerset) = allT(p, peer.ID, imp(qp.$has[p], 0 <= qp.$idx[p] && qp.$idx[p] < len(qp.all) && qp.all[qp.$idx[p]].id == p))
+pred wfDist(qp *QueryPeerset) = all(i, 0, len(qp.all), qp.all[i].distance != nil && bigval(qp.all[i].distance) == xordist(qp.all[i].id, qp.key))
+pred wfSorted(qp *QueryPeerset) = imp(qp.sorted, all(i, 0, len(qp.all), all(j, i+1, len(qp.all), bigval(qp.all[i].distance) <= bigval(qp.all[j].distance))))
+pred wf(qp *QueryPeerset) = wfIdx(qp) && wfHas(qp) && wfDist(qp) && wfSorted(qp)
+pred stateOf(qp *QueryPeerset, p peer.ID) = qp.all[qp.$idx[p]].state
+pred inStates(s PeerState, states []PeerState) = ex(i, 0, len(states), states[i] == s)
+# every peer of the set keeps its entry (id, distance, state, referrer)
+pred sameEntries(qp *QueryPeerset) = allT(x, peer.ID, imp(qp.$has[x], qp.all[qp.$idx[x]] == old(qp.all[qp.$idx[x]])))
+
+func (sqp *sortedQueryPeerset) Len() int
+  modifies nothing
+  ensures result == len(sqp.all)
+
+func (sqp *sortedQueryPeerset) Swap(i, j int)
+  requires 0 <= i && i < len(sqp.all) && 0 <= j && j < len(sqp.all)
+  modifies sqp.all
+  ensures len(sqp.all) == old(len(sqp.all))
+  ensures sqp.all[i] == old(sqp.all[j]) && sqp.all[j] == old(sqp.all[i])
+  ensures all(k, 0, len(sqp.all), imp(k != i && k != j, sqp.all[k] == old(sqp.all[k])))
+
+func (sqp *sortedQueryPeerset) Less(i, j int) bool
+  requires 0 <= i && i < len(sqp.all) && 0 <= j && j < len(sqp.all)
+  requires sqp.all[i].distance != nil && sqp.all[j].distance != nil
+  modifies nothing
+  ensures result == (bigval(sqp.all[i].distance) < bigval(sqp.all[j].distance))
+
+func NewQueryPeerset(key string) *QueryPeerset
+  ensures result != nil && len(result.all) == 0 && !result.sorted
+
+func (qp *QueryPeerset) find(p peer.ID) int
+  requires wfIdx(qp) && wfHas(qp)
+  modifies nothing
+  ensures result == ite(qp.$has[p], qp.$idx[p], -1)
+  ensures result >= -1 && result < len(qp.all)
+  loop over qp.all invariant all(j, 0, $key, qp.all[j].id != p)
+
+func (qp *QueryPeerset) distanceToKey(p peer.ID) *big.Int
+  modifies nothing
+  ensures result != nil && bigval(result) == xordist(p, qp.key)
+
+func (qp *QueryPeerset) TryAdd(p, referredBy peer.ID) bool
+  requires wf(qp)
+  modifies qp.all, qp.sorted, qp.$idx, qp.$has
+  ensures wfIdx(qp)
+  ensures wfHas(qp)
+  ensures wfDist(qp)
+  ensures wfSorted(qp)
+  ensures result == !old(qp.$has[p]) && qp.$has[p]
+  ensures allT(x, peer.ID, imp(x != p, qp.$has[x] == old(qp.$has[x])))
+  ensures imp(result, stateOf(qp, p) == PeerHeard && qp.all[qp.$idx[p]].referredBy == referredBy && qp.all[qp.$idx[p]].id == p)
+  ensures allT(x, peer.ID, imp(old(qp.$has[x]), qp.$idx[x] == old(qp.$idx[x]) && qp.all[qp.$idx[x]] == old(qp.all[qp.$idx[x]])))
+  ensures len(qp.all) == old(len(qp.all)) + ite(result, 1, 0)
+  ghost at append(qp.all): qp.$idx[p] = len(qp.all)-1; qp.$has[p] = true
+
+func (qp *QueryPeerset) sort()
+  requires wf(qp)
+  modifies qp.all, qp.sorted, qp.$idx
+  ensures wfIdx(qp)
+  ensures wfHas(qp)
+  ensures wfDist(qp)
+  ensures wfSorted(qp)
+  ensures qp.sorted
+  ensures len(qp.all) == old(len(qp.all))
+  ensures sameEntries(qp)
+  ghost at call(Sort): qp.$idx = mapcomp(x, peer.ID, ite(qp.$has[x], $sortinv(qp.$idx[x]), qp.$idx[x]))
+
+func (qp *QueryPeerset) SetState(p peer.ID, s PeerState)
+  requires wf(qp) && qp.$has[p]
+  modifies qp.all
+  ensures wfIdx(qp)
+  ensures wfHas(qp)
+  ensures wfDist(qp)
+  ensures wfSorted(qp)
+  ensures stateOf(qp, p) == s
+  ensures len(qp.all) == old(len(qp.all))
+  ensures allT(x, peer.ID, imp(x != p && qp.$has[x], qp.all[qp.$idx[x]] == old(qp.all[qp.$idx[x]])))
+  ensures qp.all[qp.$idx[p]].id == p && qp.all[qp.$idx[p]].distance == old(qp.all[qp.$idx[p]].distance) && qp.all[qp.$idx[p]].referredBy == old(qp.all[qp.$idx[p]].referredBy)
+
+func (qp *QueryPeerset) GetState(p peer.ID) PeerState
+  requires wf(qp) && qp.$has[p]
+  modifies nothing
+  ensures result == stateOf(qp, p)
+
+func (qp *QueryPeerset) GetReferrer(p peer.ID) peer.ID
+  requires wf(qp) && qp.$has[p]
+  modifies nothing
+  ensures result == qp.all[qp.$idx[p]].referredBy
+
+func (qp *QueryPeerset) GetClosestNInStates(n int, states ...PeerState) (result []peer.ID)
+  requires wf(qp) && n >= 0
+  modifies qp.all, qp.sorted, qp.$idx, qp.$src, qp.$rank
+  ghostvar $src map[int]int = any
+  ghostvar $rank map[int]int = any
+  ensures wfIdx(qp)
+  ensures wfHas(qp)
+  ensures wfDist(qp)
+  ensures wfSorted(qp)
+  ensures qp.sorted
+  ensures len(qp.all) == old(len(qp.all))
+  ensures sameEntries(qp)
+  ensures len(result) <= n
+  ensures [sound] all(j, 0, len(result), 0 <= qp.$src[j] && qp.$src[j] < len(qp.all) && result[j] == qp.all[qp.$src[j]].id && inStates(qp.all[qp.$src[j]].state, states))
+  ensures [order] all(a, 0, len(result), all(b, a+1, len(result), qp.$src[a] < qp.$src[b]))
+  ensures [lower] all(j, 0, len(result), qp.$src[j] >= j)
+  ensures [complete] all(m, 0, len(qp.all), imp(inStates(qp.all[m].state, states), (0 <= qp.$rank[m] && qp.$rank[m] < len(result) && qp.$src[qp.$rank[m]] == m) || (len(result) == n && all(j, 0, len(result), qp.$src[j] < m))))
+  ensures [ascending] all(a, 0, len(result), all(b, a+1, len(result), bigval(qp.all[qp.$src[a]].distance) <= bigval(qp.all[qp.$src[b]].distance) && result[a] != result[b]))
+  ensures [topK] all(m, 0, len(qp.all), imp(inStates(qp.all[m].state, states) && !(0 <= qp.$rank[m] && qp.$rank[m] < len(result) && qp.$src[qp.$rank[m]] == m), all(j, 0, len(result), bigval(qp.all[qp.$src[j]].distance) <= bigval(qp.all[m].distance))))
+  loop over states invariant allT(s, PeerState, iff(has(m, s), ex(i, 0, $key, states[i] == s)))
+  loop over states invariant m != nil
+  loop over qp.all invariant all(j, 0, len(result), 0 <= $src[j] && $src[j] < $key && result[j] == qp.all[$src[j]].id && inStates(qp.all[$src[j]].state, states))
+  loop over qp.all invariant all(a, 0, len(result), all(b, a+1, len(result), $src[a] < $src[b]))
+  loop over qp.all invariant len(result) <= $key && all(j, 0, len(result), $src[j] >= j)
+  loop over qp.all invariant all(k, 0, $key, imp(inStates(qp.all[k].state, states), 0 <= $rank[k] && $rank[k] < len(result) && $src[$rank[k]] == k))
+  ghost at append(result): $src[len(result)-1] = $key; $rank[$key] = len(result)-1
+  ghost at return: qp.$src = $src; qp.$rank = $rank
+
+func (qp *QueryPeerset) GetClosestInStates(states ...PeerState) (result []peer.ID)
+  requires wf(qp)
+  modifies qp.all, qp.sorted, qp.$idx, qp.$src, qp.$rank
+  ensures wfIdx(qp)
+  ensures wfHas(qp)
+  ensures wfDist(qp)
+  ensures wfSorted(qp)
+  ensures qp.sorted
+  ensures len(qp.all) == old(len(qp.all))
+  ensures sameEntries(qp)
+  ensures [sound] all(j, 0, len(result), 0 <= qp.$src[j] && qp.$src[j] < len(qp.all) && result[j] == qp.all[qp.$src[j]].id && inStates(qp.all[qp.$src[j]].state, states))
+  ensures [order] all(a, 0, len(result), all(b, a+1, len(result), qp.$src[a] < qp.$src[b]))
+  ensures [complete] all(m, 0, len(qp.all), imp(inStates(qp.all[m].state, states), 0 <= qp.$rank[m] && qp.$rank[m] < len(result) && qp.$src[qp.$rank[m]] == m))
+
+func (qp *QueryPeerset) NumHeard() int
+  requires wf(qp)
+  modifies qp.all, qp.sorted, qp.$idx, qp.$src, qp.$rank
+  ensures wfIdx(qp)
+  ensures wfHas(qp)
+  ensures wfDist(qp)
+  ensures wfSorted(qp)
+  ensures len(qp.all) == old(len(qp.all))
+  ensures sameEntries(qp)
+  ensures result >= 0
+  ensures iff(result == 0, all(m, 0, len(qp.all), qp.all[m].state != PeerHeard))
+
+func (qp *QueryPeerset) NumWaiting() int
+  requires wf(qp)
+  modifies qp.all, qp.sorted, qp.$idx, qp.$src, qp.$rank
+  ensures wfIdx(qp)
+  ensures wfHas(qp)
+  ensures wfDist(qp)
+  ensures wfSorted(qp)
+  ensures len(qp.all) == old(len(qp.all))
+  ensures sameEntries(qp)
+  ensures result >= 0
+  ensures iff(result == 0, all(m, 0, len(qp.all), qp.all[m].state != PeerWaiting))
+@*/
